@@ -28,6 +28,9 @@ TOK_TRUSTED = [
     "connection costs enter the model through the verif_conn_cost hook for every id pair (the connectors themselves are C07's subject)",
 ]
 
+HOOK_COMMITS = ["5d5ee93", "5a2f35c"]
+NOT_CLAIMED = {}
+
 PROPS = {
     "C17": {
         "theorems": ["c17_first_match", "c17_fallback", "c17_rewrite_def", "c17_oracle_sound"],
@@ -45,6 +48,9 @@ PROPS = {
             "the model keeps the trie as a first-child/next-sibling tree and the matcher as structural DFS; the Rust code uses a node vector and an explicit stack (equivalence exercised by the correspondence: rewrite results and node counts)",
         ],
         "assumptions": ["rewrite.def is valid UTF-8 (otherwise BufRead::lines returns Err before any rule is read)"],
+        "level_text": "Coq theorem c17_first_match: for every rule list and feature list the trie matcher of the model returns the output of the earliest registered matching rule (and c17_fallback / c17_rewrite_def for the fallback and the three independent rule sets of rewrite.def); the model is tied to the code on every run by evaluating it in Coq on the cases the real TrainerConfig::parse_rewrite_config + FeatureRewriter ran.",
+        "level_note": "Trusted: Coq kernel + vm_compute; the hand-written model (tree-shaped trie, structural DFS) vs the Rust node vector / explicit stack is validated by differential testing only (generated rewrite.def texts); Rust std/regex/HashSet modelled.",
+        "technique": "machine-checked proof in Coq (induction over rules and patterns) + checked model/code correspondence",
     },
     "C02": {
         "theorems": ["c02_insert_invariant", "c02_optimal", "c02_reported_path"],
@@ -58,5 +64,8 @@ PROPS = {
         ],
         "assumptions": ["accumulated costs within i32 (the model panics otherwise, like the dev-profile build)",
                         "fewer than 65536 nodes per boundary (u16 back pointer)"],
+        "level_text": "Coq theorems c02_insert_invariant / c02_optimal / c02_reported_path: for every connection-cost function (hence every connector kind), dictionary, option setting and sentence, every node's stored min_cost is attained by a BOS-rooted chain of lattice nodes and is minimal among all such chains (Viterbi invariant by induction over the insertion sequence of build_lattice_inner), EOS picks the cheapest predecessor including the connection to id 0, and the reported tokens are such a chain whose accumulated costs are the tokens' total_cost. The model (lattice.rs, tokenizer.rs, worker.rs, token.rs, sentence.rs, unknown.rs) is tied to the code on every run: the real lattice dump, tokens and costs of generated dictionaries/sentences are compared field by field with the model evaluated in Coq, and an independent forward-recursion oracle re-computes the optimum from the implementation's dumped candidates.",
+        "level_note": "Trusted: Coq kernel + vm_compute; hand model vs code tied by differential testing only; crawdad prefix search modelled at list level; connection costs taken from the implementation through the conn_cost hook; costs in Z with i32 overflow = Panicked (the property's own 32-bit restriction).",
+        "technique": "machine-checked proof in Coq (Viterbi invariant over all insertion sequences) + checked model/code correspondence on lattice dumps",
     },
 }
